@@ -63,7 +63,7 @@ FrameCmds(shape, ptr) ==
        [ev |-> "osc8", ln |-> 0], [ev |-> "curs", n |-> shape], Set(25, TRUE), [ev |-> "sgr", ps |-> <<>>]>>
   \o Opt("sync" \in caps, <<Set(2026, FALSE)>>)
 
-ModeView(t) == [alt |-> t.alt, vis |-> t.vis, keypad |-> t.keypad, set |-> t.set, kitty |-> t.kitty]
+ModeView(t) == [alt |-> t.alt, vis |-> t.vis, keypad |-> t.keypad, set |-> t.set, kitty |-> t.kitty, kittyAlt |-> t.kittyAlt]
 
 Init ==
   /\ caps \in SUBSET CapNames /\ noMouse \in BOOLEAN /\ noKitty \in BOOLEAN
